@@ -1,8 +1,23 @@
-//! (engine stub)
+//! Documents engine (C01 C02 C04: doc-replay / doc-record; C11: doc-attr-*; C03: doc-cost-*).
+//!
+//! The harness never judges: every sub-command writes ndjson observations that `spec/Trace_*.tla`
+//! judges.  Sub-modules: docs_project.rs (projection of a DOM through the public API = Rust twin of the
+//! specification's tree), docs_attr.rs (C11), docs_cost.rs (C03).
 #[allow(unused_imports)]
 use crate::util::*;
 
-pub fn main(sub: &str, _args: &[String]) -> i32 {
-    eprintln!("unknown subcommand {}", sub);
-    2
+#[path = "docs_attr.rs"]
+mod attr;
+#[path = "docs_cost.rs"]
+mod cost;
+
+pub fn main(sub: &str, args: &[String]) -> i32 {
+    match sub {
+        s if s.starts_with("doc-attr-") => attr::main(s, args),
+        s if s.starts_with("doc-cost-") => cost::main(s, args),
+        _ => {
+            eprintln!("unknown subcommand {}", sub);
+            2
+        }
+    }
 }
